@@ -212,3 +212,49 @@ Proof.
      [ apply negb_false_iff; assumption | apply negb_false_iff; assumption | discriminate
      | eexists; split; cycle 1; [bump_chain | lia] ]).
 Qed.
+
+(* ------------------------------------------------------------------ every step only moves tokens "forward" *)
+Lemma ext_revoke_derived gi v s : ext s (revoke_derived gi v s).
+Proof. unfold revoke_derived. apply (ext_map_revoke (fun t => Nat.eqb (t_grant t) gi && derived_from (S (length (toks s))) (toks s) t v)). Qed.
+
+Lemma mint_ext s gi cls based sc mx mints e s' id : mint s gi cls based sc mx mints e = Ok (s', id) -> ext s s'.
+Proof.
+  intros H. apply bump_all_ext. intros k. destruct based as [b|].
+  - destruct (Nat.eq_dec b k) as [->|N].
+    + exists 1. split; [lia|]. eapply bump1_mint_based; eauto.
+    + exists 0. split; [lia|]. eapply bump1_mint_other; eauto. congruence.
+  - exists 0. split; [lia|]. eapply bump1_mint_other; eauto. discriminate.
+Qed.
+
+Lemma step_ext c s o : ext s (fst (step c s o)).
+Proof.
+  destruct o; cbn [step].
+  - (* Authorize *) unfold do_authorize.
+    match goal with |- context [mint ?a ?b ?c0 ?d ?e ?f ?g ?h] => destruct (mint a b c0 d e f g h) as [[s2 id]| |] eqn:Hm end; cbn [fst].
+    + eapply ext_trans; [|eapply mint_ext; exact Hm]. now apply ext_same_toks.
+    + now apply ext_same_toks.
+    + now apply ext_same_toks.
+  - (* TokenParse *) unfold do_token_parse. repeat dm; cbn [fst]; try (now apply ext_same_toks).
+    eapply ext_trans; [apply ext_revoke_derived|]. now apply ext_same_toks.
+  - (* RefreshParse *) unfold do_refresh_parse. repeat dm; cbn [fst]; now apply ext_same_toks.
+  - apply process_ext.
+  - unfold do_userinfo. repeat dm; cbn [fst]; apply ext_refl.
+  - unfold do_introspect. repeat dm; cbn [fst]; apply ext_refl.
+  - unfold do_revoke_ep. repeat dm; cbn [fst]; try apply ext_refl; apply ext_upd_revoke.
+  - unfold do_api_revoke. repeat dm; cbn [fst]; try apply ext_refl.
+    + eapply ext_trans; [apply ext_upd_revoke|apply ext_revoke_derived].
+    + apply ext_upd_revoke.
+  - destruct (nth_error (grants s) gi); cbn [fst]; [|apply ext_refl]. unfold revoke_grant_at.
+    eapply ext_trans; [|apply (ext_map_revoke (fun t => Nat.eqb (t_grant t) gi))]. now apply ext_same_toks.
+  - destruct (nth_error (grants s) gi) as [g|]; cbn [fst]; [|apply ext_refl]. unfold revoke_branch.
+    intros k t H. unfold tget in *; cbn. rewrite nth_error_map, H; cbn.
+    destruct (in_branch g s (t_grant t)); eauto using tok_le_refl, tok_le_revoke.
+  - now apply ext_same_toks.
+Qed.
+
+Lemma run_ext c ops : forall s, ext s (fst (run c s ops)).
+Proof.
+  induction ops as [|o r IH]; intros s; cbn [run]; [apply ext_refl|].
+  destruct (step c s o) as [s1 x] eqn:E. specialize (IH s1). destruct (run c s1 r) as [s2 xs]. cbn [fst] in *.
+  eapply ext_trans; [|exact IH]. pose proof (step_ext c s o) as H. now rewrite E in H.
+Qed.
